@@ -117,6 +117,7 @@ func (c19Prop) genOne(t *Tape) *c19Case {
 	c.Shape = spec
 	if n > 0 && failSel > 0 && failSel <= n {
 		ps.FailAt = failSel
+		ps.ErrKind = t.Draw(len(probeErrors))
 	}
 	// environment
 	nEnv := t.Draw(3)
@@ -150,6 +151,9 @@ func (c19Prop) genOne(t *Tape) *c19Case {
 	for i := 0; i < n; i++ {
 		if isArg {
 			tok := t.Pick(valToks)
+			if t.Draw(6) == 0 {
+				tok = "--" // after the leading `--` a further `--` is an operand like any other
+			}
 			c.Tokens = append(c.Tokens, tok)
 			posToks = append(posToks, tok)
 			if strings.HasPrefix(tok, "-") {
